@@ -336,6 +336,15 @@ func (e *Engine) setupSpecFuns() (err error) {
 			}
 			info.rtype = tc.resolveType(info.def.Result)
 		}()
+		if info.def.Body == nil && info.def.Reads != "" {
+			ms, err := parseModifies(info.def.Reads)
+			if err != nil {
+				return fmt.Errorf("%s:%d: fun %s: reads: %v", info.def.File, info.def.Line, name, err)
+			}
+			ex := &Exec{vc: dummy, eng: e}
+			_, whole := ex.resolveTargets(tc, ms)
+			info.reads = sortedKeys(whole)
+		}
 		if info.def.Body != nil {
 			cs := map[string]bool{}
 			collectCalls(info.def.Body, cs)
